@@ -498,6 +498,11 @@ def s0_compositions(ctx) -> None:
             for t in terms:
                 if any(PT.match(PT.compile_pattern(a), t) is not None for a in accepted):
                     continue
+                # leaving when the iterable of the final loop is empty is what that loop does anyway
+                if isinstance(t, ast.UnaryOp) and isinstance(t.op, ast.Not) and isinstance(t.operand, ast.Name) and isinstance(f.body[-1], ast.For) \
+                        and isinstance(f.body[-1].iter, ast.Name) and f.body[-1].iter.id == t.operand.id and not f.body[-1].orelse \
+                        and len(D.definitions(f).get(t.operand.id, [])) == 1:
+                    continue
                 ctx.violation("S0", t, f"compositions returns nothing under `{norm(t)}`, which does not exclude that a composition exists "
                               "(accepted: n < 0, k <= 0, n < sum(min_sizes), all maxima known and sum(max_sizes) < n): products silently lose terms")
     if guard_ok:
@@ -512,12 +517,15 @@ def s0_compositions(ctx) -> None:
     else:
         ctx.violation("S0", f, "the base case of compositions must yield (n,) exactly when k == 1", construct="utils.compositions base case")
     # (c) the first part ranges over [min_sizes[0], M] with M = its maximum, or anything >= n - sum(min_sizes[1:]) when unbounded
-    loops = [l for l in walk_local(f) if isinstance(l, ast.For) and isinstance(l.iter, ast.Call) and norm(l.iter.func) == "range" and len(l.iter.args) == 2]
+    def _rng(l):
+        it = D.expanded(f, l.iter) if isinstance(l.iter, ast.Name) else l.iter
+        return it if isinstance(it, ast.Call) and norm(it.func) == "range" and len(it.args) == 2 else None
+    loops = [l for l in walk_local(f) if isinstance(l, ast.For) and _rng(l) is not None]
     if len(loops) != 1:
         raise AnalysisError("S0: cannot find the loop over the first part in utils.compositions")
     loop = loops[0]
     i = norm(loop.target)
-    lo, hi = loop.iter.args
+    lo, hi = _rng(loop).args
     okr = norm(lo) == "min_sizes[0]"
     hi_src = hi
     if isinstance(hi, ast.BinOp) and isinstance(hi.op, ast.Add) and norm(hi.right) == "1":
